@@ -28,6 +28,9 @@ pub enum Decoration {
     Special,
     /// both scenarios carry the same name (different lines)
     SameNames,
+    /// special names, doc strings and tables on the steps, Log events in the
+    /// stream, a World on every failure, verbosity 2
+    Rich,
 }
 
 #[derive(Clone, Copy, Debug)]
@@ -65,7 +68,7 @@ pub fn decorated_sources(cfg: &Config, o: &Opts) -> Sources {
     let deco_name = |name: &str, is_scen: bool| -> String {
         match o.deco {
             Decoration::Plain => name.to_owned(),
-            Decoration::Special => special(name),
+            Decoration::Special | Decoration::Rich => special(name),
             Decoration::SameNames => {
                 if is_scen {
                     "same name".to_owned()
@@ -76,8 +79,16 @@ pub fn decorated_sources(cfg: &Config, o: &Opts) -> Sources {
         }
     };
     let deco_step = |st: &mut gherkin::Step| {
-        if o.deco == Decoration::Special {
+        if o.deco == Decoration::Special || o.deco == Decoration::Rich {
             st.value = special(&st.value);
+        }
+        if o.deco == Decoration::Rich {
+            st.docstring = Some("doc line 1\n  <doc> \"line\" 2 & é".into());
+            st.table = Some(gherkin::Table {
+                rows: vec![vec!["h1".into(), "h <2>".into()], vec!["é".into(), "\"v\" & w".into()]],
+                span: gherkin::Span { start: 0, end: 0 },
+                position: gherkin::LineCol { line: 1, col: 1 },
+            });
         }
     };
     for mut f in feats {
@@ -219,6 +230,26 @@ pub struct Outputs {
 }
 
 pub fn render(src: &Sources, stream: &[Ev], o: &Opts) -> Result<Outputs, String> {
+    crate::rec::WITH_WORLD.with(|w| w.set(o.deco == Decoration::Rich));
+    // Log events after every step / hook Started (they are not facts)
+    let with_logs: Vec<Ev>;
+    let stream: &[Ev] = if o.deco == Decoration::Rich {
+        let mut v = Vec::new();
+        let mut n = 0;
+        for e in stream {
+            v.push(e.clone());
+            if let Ev::Sc { f, r, s, retries, ev, .. } = e {
+                if matches!(ev, ScEv::Step(_, _, _, StepEv::Started) | ScEv::Hook(_, HookEv::Started)) {
+                    n += 1;
+                    v.push(crate::rec::sc(f, r.as_deref(), s, *retries, ScEv::Log(format!("LOG {n} <l> & \"q\"\n"))));
+                }
+            }
+        }
+        with_logs = v;
+        &with_logs
+    } else {
+        stream
+    };
     let run = || {
         let (b, l, j, x) =
             (SharedBuf::default(), SharedBuf::default(), SharedBuf::default(), SharedBuf::default());
@@ -254,7 +285,11 @@ pub fn render(src: &Sources, stream: &[Ev], o: &Opts) -> Result<Outputs, String>
 pub fn opt_sets(thorough: bool) -> Vec<Opts> {
     let mut v = Vec::new();
     for path in [true, false] {
-        for deco in [Decoration::Plain, Decoration::Special, Decoration::SameNames] {
+        for deco in [Decoration::Plain, Decoration::Special, Decoration::SameNames, Decoration::Rich] {
+            if deco == Decoration::Rich {
+                v.push(Opts { path, deco, libtest_show_output: true, libtest_report_time: false, verbosity: 2 });
+                continue;
+            }
             let combos: &[(bool, bool, u8)] = if thorough {
                 &[(false, false, 0), (true, false, 1), (false, true, 0), (true, true, 1)]
             } else if deco == Decoration::Plain {
